@@ -158,6 +158,46 @@ func AddServices(r *rng.R, p *Program, sp ServiceParams) {
 	if sp.Homonyms {
 		g.addHomonyms(sp)
 	}
+	g.ensureZeroThrow()
+}
+
+// ensureZeroThrow: every program has at least one void, non-oneway function that declares an
+// exception under field id 0 (accepted since id 0 is reserved for non-void functions only).
+func (g *gen) ensureZeroThrow() {
+	var cands []*Function
+	for _, s := range g.prog.Services() {
+		for _, fn := range s.Functions {
+			if fn.Oneway || fn.Ret != nil {
+				continue
+			}
+			for _, t := range fn.Throws {
+				if t.ID == 0 {
+					return
+				}
+			}
+			if len(fn.Throws) > 0 {
+				cands = append(cands, fn)
+			}
+		}
+	}
+	if len(cands) == 0 {
+		// turn a value-returning function with exceptions of the main file's last service into a void one
+		ss := g.prog.Services()
+		for i := len(ss) - 1; i >= 0 && len(cands) == 0; i-- {
+			for _, fn := range ss[i].Functions {
+				if !fn.Oneway && len(fn.Throws) > 0 {
+					fn.Ret = nil
+					cands = append(cands, fn)
+					break
+				}
+			}
+		}
+	}
+	if len(cands) == 0 {
+		return
+	}
+	fn := rng.Pick(g.r, cands)
+	fn.Throws[g.r.Intn(len(fn.Throws))].ID = 0
 }
 
 func (g *gen) visServices() []*Service {
@@ -445,8 +485,49 @@ func (g *gen) genFunction(sp ServiceParams, name string) *Function {
 			}
 			fn.Throws = append(fn.Throws, th)
 		}
+		// ids in any order, negative ids, and — on void functions, where no "success" occupies it — id 0
+		if len(fn.Throws) > 0 && r.Chance(1, 2) {
+			g.wildIDs(fn.Throws, fn.Ret == nil, fn.Ret == nil && r.Chance(2, 3))
+		}
+	}
+	if len(fn.Args) > 0 && r.Chance(1, 5) {
+		g.wildIDs(fn.Args, true, r.Chance(1, 3))
 	}
 	return fn
+}
+
+// wildIDs gives the fields pairwise distinct explicit ids in no particular order: negative, small,
+// large; zeroOK allows 0, forceZero puts 0 on one of them.
+func (g *gen) wildIDs(fs []*Field, zeroOK, forceZero bool) {
+	r := g.r
+	used := map[int]bool{}
+	for _, f := range fs {
+		f.Implicit = false
+		for {
+			var id int
+			switch r.Intn(5) {
+			case 0:
+				id = -r.Range(1, 400)
+			case 1:
+				id = r.Range(20000, 32767)
+			case 2:
+				id = 0
+			default:
+				id = r.Range(1, 12)
+			}
+			if id == 0 && !zeroOK {
+				continue
+			}
+			if !used[id] {
+				used[id] = true
+				f.ID = id
+				break
+			}
+		}
+	}
+	if forceZero && zeroOK && !used[0] {
+		fs[r.Intn(len(fs))].ID = 0
+	}
 }
 
 // ---------------------------------------------------------------------------------- Coq terms
@@ -520,7 +601,18 @@ func (p *Program) ServiceStats(h map[string]int) {
 			}
 			h[fmt.Sprintf("args:%d%s", na, map[bool]string{true: "+", false: ""}[len(fn.Args) > 3])]++
 			h[fmt.Sprintf("throws:%d", len(fn.Throws))]++
+			for _, t := range fn.Throws {
+				switch {
+				case t.ID == 0:
+					h["throws_id_zero"]++
+				case t.ID < 0:
+					h["throws_id_negative"]++
+				}
+			}
 			for _, a := range fn.Args {
+				if a.ID <= 0 {
+					h["arg_id_nonpositive"]++
+				}
 				h["arg:"+a.Type.Kind]++
 				if a.Default != nil {
 					h["arg_default"]++
